@@ -10,6 +10,7 @@ func checkC11(c *Ctx) {
 	p := mustLoad(c, K1)
 	eff := sharedEffects(p)
 	pkgs := p.FamilyPkgs("ecc/*/kzg")
+	indexLints(c, p, "ecc/*/kzg")
 	c.Rule("C11.guard", "GUARD (table from the scheme): Commit/Open/BatchOpenSinglePoint refuse empty or oversized polynomials and mismatched digest counts; Verify returns nil only on the success edge of PairingCheckFixedQ applied to [f(a)-f(alpha)+a*H, H-proof] and the key's lines, with no error; BatchVerifySinglePoint = FoldProof then Verify; FoldProof requires LenEq(digests, claimed values) and a successfully derived gamma; BatchVerifyMultiPoints requires both LenEq, a non-empty batch, and either the single Verify or the pairing check on the folded digests", 7*7)
 	c.Rule("C11.bind", "BINDING (L16): the Fiat-Shamir challenge gamma binds the point, every digest, every claimed value and every extra transcript datum (each Bind error tested) before it is computed; FoldProof/BatchOpenSinglePoint pass exactly their point, digests, claimed values, hash and extra data to it", 7*3)
 	c.Rule("C11.mod", "EFFECTS: the verification and opening entry points write none of their slice/pointer arguments (keys, digests, proofs, points, polynomials): a verifying key and the argument slices can be reused for any number of calls", 7*8)
